@@ -511,5 +511,9 @@ def main(argv):
     except ToolError as e:
         log("TOOL ERROR: " + str(e))
         return 2
+    except Exception:  # a failure of the machinery itself is never a verdict (exit 1 needs a VIOLATION line)
+        import traceback
+        log("TOOL ERROR: unexpected exception in the checking machinery\n" + traceback.format_exc())
+        return 2
     finally:
         shutil.rmtree(WORK / "jtmp" / str(os.getpid()), ignore_errors=True)
